@@ -1167,6 +1167,17 @@ def n4_dns(e: Engine, rep: Report):
                               getattr(x, 'lineno', c.node.lineno))
     used = {x.id for m in c.methods.values() for x in ast.walk(m.node)
             if isinstance(x, ast.Name)}
+    # ... also through module-level helpers the methods call
+    changed = True
+    while changed:
+        changed = False
+        for st in c.module.tree.body:
+            if isinstance(st, ast.FunctionDef) and st.name in used:
+                more = {x.id for x in ast.walk(st)
+                        if isinstance(x, ast.Name)} - used
+                if more:
+                    used |= more
+                    changed = True
 
     class _ModTables:
         # module-level tables the class's methods name
